@@ -1,8 +1,8 @@
 (* C15 -- Angles are in their documented ranges and agree with sun and scan geometry.
    Statements only; proofs in Proofs/P_C15.v (over the reals).  Model: Model/M_Angles.v; astronomy and orbit are oracles;
    Gen_Angles ties the assembly (which function receives which arguments, conversions, order of the results) to the source. *)
-From Coq Require Import String List Reals ZArith Lra.
-From PV Require Import M_Angles P_C15 Gen_Angles.
+From Coq Require Import String List Reals ZArith QArith Qreals Lra.
+From PV Require Import M_Angles P_C15 P_C15_Q Gen_Angles.
 Import ListNotations.
 Open Scope R_scope.
 
@@ -78,6 +78,12 @@ Print Assumptions C15_flagged_pixel.
 Theorem C15_zenith_range : forall l s r, angles_px false l s = Some r -> -90 <= l_elev l <= 90 -> 0 <= sat_zenith r <= 180.
 Proof. exact sat_zenith_range. Qed.
 Print Assumptions C15_zenith_range.
+
+(* the executable rational functions evaluated by the correspondence compute the real-valued model *)
+Theorem C15_executable_mirror : forall a b : Q,
+  Q2R (cmodQ a) = cmod (Q2R a) /\ Q2R (relazQ a b) = relaz (Q2R a) (Q2R b).
+Proof. intros a b. split; [apply cmodQ_correct | apply relazQ_correct]. Qed.
+Print Assumptions C15_executable_mirror.
 
 (* non-vacuity: 350 and -170 degrees (difference 520 = 160 + 360) fold to -10, -170, relative azimuth 160 *)
 Example C15_example : cmod 350 = -10 /\ cmod (-170) = -170 /\ cmod 180 = 180 /\ cmod (-180) = 180 /\ relaz 350 (-170) = 160.
